@@ -1858,6 +1858,7 @@ func (x *Exec) opaqueCall(st *State, fr *Frame, resInstr ssa.Instruction, name s
 	st.events = append(st.events, ev)
 	x.havocFor(st, fr, name)
 	x.havocOutParams(st, fr, name)
+	ev.HeapPost = copyHeap(st.heap) // the heap the callee left (for after(call, e))
 	if !isDefer && resInstr != nil {
 		x.bindResult(st, fr, resInstr, res)
 	}
